@@ -382,6 +382,42 @@ fn c02_walk(idx: usize, ctx: &Ctx, rpt: &mut Report) {
             json!({"glob": clip(&case.expr), "family": case.family, "base": case.base.to_string_lossy(), "behaviour": behaviour_json(&behaviour), "missing": short(&missing), "extra": short(&extra), "tree": describe_tree(&spec)}),
         );
     }
+    // The documented idiom `let (prefix, glob) = glob.partition(); glob.walk(dir.join(prefix))`
+    // (round 9): the postfix is a glob in its own right — a rebuilt token tree with its own
+    // component programs — and walking it from the joined directory is judged by the same oracle:
+    // exactly the entries beneath that directory whose relative path the *postfix* matches.
+    if case.family == "unrooted" && matches!(behaviour.depth, DepthBehavior::Unbounded) && missing.is_empty() && extra.is_empty() {
+        if let Some((prefix, Some(post))) = guarded(|| glob.clone().partition()) {
+            let dir = case.base.join(&prefix);
+            let dir_is_link = std::fs::symlink_metadata(&dir).map_or(false, |m| m.file_type().is_symlink());
+            if !prefix.as_os_str().is_empty() && dir.is_dir() && !dir_is_link {
+                if let Some(o2) = guarded(|| walkrun::run(&dir, Some(&post), behaviour, &[])) {
+                    let m2 = model_walk(&dir, follow_of(&behaviour));
+                    let mut exp2 = multiset(
+                        m2.oks()
+                            .filter(|e| !e.rel.is_empty() && guarded(|| post.is_match(e.rel.as_str())) == Some(true))
+                            .map(|e| e.path.clone()),
+                    );
+                    let got2 = ok_paths(&o2.items);
+                    let start_norm: PathBuf = dir.components().collect();
+                    if got2.contains_key(&start_norm) && guarded(|| post.is_match("")) == Some(true) {
+                        exp2.insert(start_norm, 1);
+                    }
+                    rpt.evaluations += 1;
+                    rpt.bucket("partitioned:postfix-walked-from-the-joined-directory");
+                    let (missing2, extra2) = diff(&exp2, &got2);
+                    if !missing2.is_empty() || !extra2.is_empty() {
+                        rpt.disagreement(
+                            &ctx.known,
+                            if !missing2.is_empty() { "walk-misses-matching-entries" } else { "walk-yields-unexpected-entries" },
+                            None,
+                            json!({"glob": clip(&case.expr), "family": "postfix of a partition, walked from base joined with the prefix", "prefix": prefix.to_string_lossy(), "postfix": clip(&post.to_string()), "base": dir.to_string_lossy(), "behaviour": behaviour_json(&behaviour), "missing": short(&missing2), "extra": short(&extra2), "tree": describe_tree(&spec)}),
+                        );
+                    }
+                }
+            }
+        }
+    }
     if !exp.is_empty() && exp.len() < model.oks().count() {
         rpt.nontrivial.insert(hash_str(&format!("{}|{:?}|{}", case.expr, describe_tree(&spec), case.base_label)));
     }
